@@ -260,6 +260,20 @@ func (g *resGen) fillReference(m protoreflect.Message, depth int) {
 			h.Set(h.Descriptor().Fields().ByName("value"), protoreflect.ValueOfString("2"))
 		}
 	}
+	// the populated alternative sometimes carries an element id / a primitive extension of its own
+	if fd := m.WhichOneof(oo); fd != nil && g.r.p(0.3) {
+		alt := m.Mutable(fd).Message()
+		if idf := alt.Descriptor().Fields().ByName("id"); idf != nil && idf.Kind() == protoreflect.MessageKind && g.r.p(0.6) {
+			s := alt.Mutable(idf).Message()
+			s.Set(s.Descriptor().Fields().ByName("value"), protoreflect.ValueOfString(pick(g.r, idVocab)))
+		}
+		if ef := alt.Descriptor().Fields().ByName("extension"); ef != nil && ef.IsList() && g.r.p(0.7) {
+			l := alt.Mutable(ef).List()
+			e := l.NewElement()
+			g.fillExtension(e.Message(), depth+1)
+			l.Append(e)
+		}
+	}
 	if g.r.p(0.4) {
 		fd := d.Fields().ByName("display")
 		s := m.Mutable(fd).Message()
